@@ -70,6 +70,15 @@ def generate(job):
         nplant = rs.weighted([(0, 2), (1, 4), (2, 3), (4, 1)])
         spec["plants"] = sorted(set(rs.randint(0, 6 * max(spec["N"], spec["max_N"])) for _ in range(nplant)))
         spec["plant_factor"] = rs.choice([1.5, 3.0, 10.0])
+        if spec["mode"] == "thin":
+            # with every proposal accepted the run ends after ~N proposals: exactly one late maximum inside
+            # that window gives exactly one (attributable) thinning over many alive events
+            spec["max_N"] = rs.choice([3, 5, 8])
+            spec["N"] = rs.choice([12, 30, 60])
+            spec["plants"] = [rs.randint(spec["max_N"], spec["N"] - 2)]
+            spec["plant_factor"] = rs.choice([1.5, 3.0])
+            spec["preset"] = "none"
+            spec["wshape"] = rs.choice(["uniform", "flat"])
     elif kind == "interp_ar":
         spec["N"] = rs.choice([1, 5, 40, 200])
         spec["grid"] = rs.randint(3, 12)
